@@ -531,6 +531,11 @@ inline void TotalOrderSort(py::list& list) {  // NOLINT[runtime/references]
 
 inline Py_ALWAYS_INLINE py::list DictKeys(const py::dict& dict) {
     const scoped_critical_section cs{dict};
+    if (py::type::handle_of(dict).is(PyOrderedDictTypeObject)) [[unlikely]] {
+        // NOTE: `PyDict_Keys()` returns the keys in the order of the underlying dict storage,
+        // which ignores the order maintained by `OrderedDict` itself (e.g. `move_to_end()`).
+        return py::list{py::reinterpret_borrow<py::object>(dict)};
+    }
     return py::reinterpret_steal<py::list>(PyDict_Keys(dict.ptr()));
 }
 
